@@ -28,8 +28,8 @@ LEVEL_TEXT = ("Exploration over the layout product: the header scanner's behavio
 LEVEL_NOTE = "Trusts ref_header.py / ref_sgml.py. Files are built from bytes the generator controls; real FI quirks outside the listed layouts are out of scope."
 DESIGN_REF = "DESIGN.md §3 C05"
 EXHAUSTIVE = {"thorough": "full v1 layout product (5 separators x 3 colon-blank x 4 leading-blank x 6 gaps x compression x 9 encoding pairs) and v2 product (2 x 32 per-attribute quote styles x 3x3 breaks x 7 versions)"}
-MIN_COUNTERS = {"quick": {"big_bodies": 40, "mojibake_bodies": 60, "v1_files": 2500, "v2_files": 900, "after_broken_file": 300, "nonascii_bodies": 800, "tree_checked": 2500},
-                "thorough": {"big_bodies": 150, "mojibake_bodies": 1000, "v1_files": 35000, "v2_files": 10000, "after_broken_file": 4000, "nonascii_bodies": 10000, "tree_checked": 35000}}
+MIN_COUNTERS = {"quick": {"big_bodies": 32, "mojibake_bodies": 60, "v1_files": 2000, "v2_files": 900, "after_broken_file": 300, "nonascii_bodies": 800, "tree_checked": 2500},
+                "thorough": {"big_bodies": 120, "mojibake_bodies": 1000, "v1_files": 35000, "v2_files": 10000, "after_broken_file": 4000, "nonascii_bodies": 10000, "tree_checked": 35000}}
 
 SEPS = {"crlf": "\r\n", "lf": "\n", "cr": "\r", "none": "", "blank": " "}
 CODECS = {"ISO-8859-1": "latin_1", "1252": "cp1252", "NONE": "utf_8"}
@@ -38,7 +38,9 @@ CODECS = {"ISO-8859-1": "latin_1", "1252": "cp1252", "NONE": "utf_8"}
 # latin_1 incl. C1 controls: the code points where latin-1 and cp1252 disagree
 SPECIALS = {"latin_1": "éÿ¡©ü\x80\x91\x9f", "cp1252": "€’…œé", "utf_8": ["€", "é", "汉", "😀", "’", "ÿ", "e\u0301", "\u212b", "\u2126", "\u212a", "\u1100\u1161", "\uf900", "\U0001d15e", "a\u0323\u0307"]}
 UIDCHARS = "ABCXYZabcxyz0189_-"
-KEYWORD_UIDS = ["NEWFILEUID", "OLDFILEUID", "xNEWFILEUIDx", "OFXHEADER", "VERSION", "CHARSET", "ENCODING", "OFX", "xml", "100"]
+KEYWORD_UIDS = ["NEWFILEUID", "OLDFILEUID", "xNEWFILEUIDx", "OFXHEADER", "VERSION", "CHARSET", "ENCODING", "OFX", "xml", "100",
+                # identifiers that other software would "normalise": UUIDs in upper case, without or with misplaced hyphens; numbers
+                "9F3C2B1A-0D4E-4F5A-8B6C-7D8E9F0A1B2C", "9F3C2B1A0D4E4F5A8B6C7D8E9F0A1B2C", "FEDCBA98-76543210-FEDCBA98-76543210", "0007", "1e3", "none", "None", "TRUE"]
 
 
 def shards(tier):
